@@ -32,7 +32,7 @@ REQUIRED_MONITORS = ["equals_base_at_translated", "Fq_equals_base_at_translated"
 REQUIRED_BUCKETS = {"quick": ["tpl:boundary", "tpl:affine", "tpl:power", "tpl:pair", "tpl:ternary", "tpl:chain3", "place:default",
                               "place:start", "place:after-untouched", "place:after-angle", "dim:1d", "dim:2d",
                               "pd:feeds-intermediate", "validity-boundary-crossed", "lane:asan", "new-parameters:untyped",
-                              "new-parameters:untyped-and-no-volume-parameter-left", "same-name-second-definition"]}
+                              "new-parameters:untyped-and-no-volume-parameter-left", "same-name-second-definition", "new-parameter-keeps-base-name"]}
 REQUIRED_BUCKETS["thorough"] = REQUIRED_BUCKETS["quick"]
 
 BASES = ["sphere", "cylinder", "ellipsoid", "core_shell_sphere", "hollow_cylinder", "barbell", "capped_cylinder",
@@ -105,7 +105,7 @@ def v(n): return ("v", n)
 def k_(x): return ("k", x)
 
 
-def build_translation(info, tpl, rng, pars0):
+def build_translation(info, tpl, rng, pars0, keep_name=False):
     """Returns (new parameter definitions, statements [(lhs, ast)], replaced base names, new default values)."""
     vol = [p for p in info.parameters.kernel_parameters if p.type == "volume" and p.length == 1]
     names = [p.name for p in vol]
@@ -130,8 +130,10 @@ def build_translation(info, tpl, rng, pars0):
         tpl = "affine"
     if tpl == "affine":
         al, be = float(rng.uniform(0.5, 2.0)), float(rng.uniform(0.0, 0.3))*va
-        new = [["u_new", "Ang", (va - be)/al, [0, inf], "volume", "new u"]]
-        st = [(a.name, ("+", ("*", k_(al), v("u_new")), k_(be)))]
+        # every third affine case keeps the base parameter's name for its replacement (radius = 2*radius + 3)
+        nm = a.name if keep_name else "u_new"
+        new = [[nm, "Ang", (va - be)/al, [0, inf], "volume", "new u"]]
+        st = [(a.name, ("+", ("*", k_(al), v(nm)), k_(be)))]
         repl, feeds = [a.name], []
     elif tpl == "power":
         # t = cbrt(vol/ecc/K); a = ecc*t; b = t
@@ -202,7 +204,7 @@ def run_case(case, rec):
     bi = sas.info(base)
     rng = core.rng_for(case["seed"], PROP, k)
     pars0 = sas.base_pars(bi, case["seed"]*17 + k)
-    tpl, new, st, repl, feeds = build_translation(bi, case["tpl"], rng, pars0)
+    tpl, new, st, repl, feeds = build_translation(bi, case["tpl"], rng, pars0, keep_name=(k % 3 == 1))
     # the new parameters need not be size parameters as far as the table is concerned: every fourth case declares
     # them with an empty type (then no new parameter can carry dispersity; the base still has a volume)
     if k % 4 == 3 and tpl != "boundary":
@@ -211,6 +213,8 @@ def run_case(case, rec):
         if not any(p.type == "volume" for p in bi.parameters.kernel_parameters if p.name not in repl):
             rec.bucket("new-parameters:untyped-and-no-volume-parameter-left")
     rec.bucket("tpl:" + tpl, "lane:" + case.get("lane", "plain"))
+    if any(n[0] in repl for n in new):
+        rec.bucket("new-parameter-keeps-base-name")
     text = "\n".join("        %s = %s" % (lhs, C(ast)) for lhs, ast in st)
     untouched = [p for p in bi.parameters.kernel_parameters if p.name not in repl]
     angles = [p.name for p in bi.parameters.orientation_parameters]
@@ -253,7 +257,7 @@ def run_case(case, rec):
     neworder = [p.name for p in info.parameters.kernel_parameters if p.name in set(oldorder)]
     same = all((p.name in newtab and newtab[p.name].limits == p.limits and newtab[p.name].type == p.type
                 and newtab[p.name].units == p.units and newtab[p.name].length == p.length) for p in untouched)
-    rec.check("untouched_parameters_preserved", same and oldorder == neworder and all(r not in newtab for r in repl)
+    rec.check("untouched_parameters_preserved", same and oldorder == neworder and all(r not in newtab or r in {n[0] for n in new} for r in repl)
               and all(n[0] in newtab for n in new),
               {"base": base, "untouched": oldorder, "new_table": [p.name for p in info.parameters.kernel_parameters]})
     # new-parameter values
@@ -303,7 +307,7 @@ def run_case(case, rec):
     # constants of its translation, built against the same library cache: it must be its own model, not the first
     if tpl in ("affine", "pair", "power") and case.get("lane", "plain") == "plain":
         rng2 = core.rng_for(case["seed"], PROP, k, "second")
-        tpl2, new2, st2, repl2, feeds2 = build_translation(bi, tpl, rng2, pars0)
+        tpl2, new2, st2, repl2, feeds2 = build_translation(bi, tpl, rng2, pars0, keep_name=(k % 3 == 1))
         if tpl2 == tpl and [n[0] for n in new2] == [n[0] for n in new] and repl2 == repl:
             new2 = [n2[:4] + [n1[4]] + n2[5:] for n1, n2 in zip(new, new2)]
             text2 = "\n".join("        %s = %s" % (lhs, C(ast)) for lhs, ast in st2)
